@@ -77,7 +77,7 @@ pub fn packet_of_toks(t: &[&str]) -> Packet {
         "wrq" => Packet::Wrq { filename: s(t[1]), mode: s(t[2]), options: opts_of_text(t[3]) },
         "data" => Packet::Data { block_num: t[1].parse().unwrap(), data: unhd(t[2]) },
         "ack" => Packet::Ack(t[1].parse().unwrap()),
-        "error" => Packet::Error { code: ErrorCode::from_u16(t[1].parse().unwrap()).unwrap(), msg: s(t[2]) },
+        "error" => Packet::Error { code: error_code(t[1].parse().unwrap()), msg: s(t[2]) },
         "oack" => Packet::Oack(opts_of_text(t[1])),
         _ => panic!("bad packet text"),
     }
